@@ -32,7 +32,9 @@ CLAUSES = [
 ]
 RULE = ("well-formed multi-channel note sets (<=8 notes, back-to-back repeated pitches, very short notes) x value lists "
         "(defaults, lists with duplicates, single values; since audit round 4 also lists holding 0 and negative values, about 12 % of the cases) "
-        "x extension on/off; non-trivial = some note's duration not in the list")
+        "x extension on/off; non-trivial = some note's duration not in the list; every second case also as an ARGUMENT HISTORY through the wrapper: "
+        "the same Sequence quantised twice with the caller's list edited in place in between (remove / replace / append a value), the second call with "
+        "the same list object or an equal copy, judged against the text for the content and the list as they are at the second call")
 ASSUMPTIONS = ["model: SCoda.quantiseNoteLengths + SCoda.pairings, tied by translation (AbsTie2) and sampled by correspondence (lists with a negative value are left "
                "out of the correspondence: a tick of -1 is the line protocol's None)",
                "reading (audit round 4, A4): `any list of allowed values` includes 0 and negative values; the text's result for a note whose closest fitting value "
@@ -61,14 +63,74 @@ def qnl_text_prediction(pre, values, dne):
     return out
 
 
+def _canon_key(m):
+    return (m[2], m[1], m[0], -1 if m[3] is None else m[3])
+
+
+def apply_list_edits(lst, edits):
+    """the caller's in-place edits of ITS OWN list of allowed values, between two calls (seeded change C06_agent8): ["remove", v] (list.remove,
+    a no-op when v is not in the list), ["append", v], ["replace", i, v] (lst[i % len] = v).  Works IN PLACE on `lst` (the object identity is
+    the point) and returns it."""
+    for e in edits:
+        if e[0] == "remove":
+            if e[1] in lst:
+                lst.remove(e[1])
+        elif e[0] == "append":
+            lst.append(e[1])
+        elif e[0] == "replace" and lst:
+            lst[e[1] % len(lst)] = e[2]
+    return lst
+
+
+def after_first_pass(pre, a, values, dne):
+    """plain-data content of the sequence after a pass with the (positive) values `values`: the text's result (qnl_text_prediction) as an
+    absolute plain list in canonical order — every non-note message of `a` as it is, every kept note with its new end"""
+    a1 = [m for m in a if m[TY] not in (ON, OFF)]
+    for (c, p, on, x, v) in qnl_text_prediction(pre, values, dne):
+        a1 += [G.pm(ON, c, on, note=p, vel=v), G.pm(OFF, c, on + x, note=p)]
+    return sorted(a1, key=_canon_key)
+
+
 def o_qnl(inp):
     a = [tuple(m) for m in inp["abs"]]
     values = list(inp["values"])
     dne = inp["dne"]
-    pre, _ = abs_timed(sorted(a, key=lambda m: (m[2], m[1], m[0], -1 if m[3] is None else m[3])))
+    pre, _ = abs_timed(sorted(a, key=_canon_key))
     if wf_violations(pre) or any(on >= off for (_, _, on, off, _) in notes_of(pre)):
         return [("~skip:not-well-formed", "")]
-    if inp.get("state"):
+    relist = inp.get("relist")
+    if relist:
+        # OBJECT HISTORY OF THE ARGUMENT (seeded change C06_agent8): the same Sequence is quantised twice through the wrapper with nothing in
+        # between but the CALLER editing its own list of allowed values in place; the second call gets the same list object ("same-object") or
+        # a different list object with the content the first one has by then ("equal-copy").  The second call is judged, like every call, against
+        # the text for the sequence as it is then (the text's result of the first pass, from plain data) and the list as it is then.
+        first = list(relist["first"])
+        values = apply_list_edits(list(first), relist["edits"])      # the list as it is at the second call (plain data, the harness's own copy)
+        if not first or not values or any(x <= 0 for x in first + values):
+            return [("~skip:relist-needs-positive-non-empty-lists", "")]
+        s_ = P.seq_in_state(G.abs_to_rel(a), inp.get("state") or "rel")
+        the_list = list(first)
+        try:
+            s_.quantise_note_lengths(the_list, do_not_extend=dne)
+        except Exception as e:
+            return [("raises", f"first call: {type(e).__name__}: {e}")]
+        # the absolute view as the first call left it, read off the private field (no method of the object is called between the two calls)
+        mid = [from_real(m) for m in s_._abs._messages]
+        a1 = after_first_pass(pre, a, first, dne)
+        if notes_of(abs_timed(sorted(mid, key=_canon_key))[0]) != notes_of(abs_timed(a1)[0]):
+            return [("first-call", f"the first pass with {first} left the notes {notes_of(abs_timed(sorted(mid, key=_canon_key))[0])[:6]}, "
+                                   f"the text gives {notes_of(abs_timed(a1)[0])[:6]}")]
+        apply_list_edits(the_list, relist["edits"])
+        if the_list != values:
+            return [("argument", f"the caller's list {first} was changed by the first call: after the caller's edits it reads {the_list}, not {values}")]
+        try:
+            s_.quantise_note_lengths(the_list if relist["second"] == "same-object" else list(the_list), do_not_extend=dne)
+        except Exception as e:
+            return [("raises", f"second call: {type(e).__name__}: {e}")]
+        out = [from_real(m) for m in s_.abs._messages]
+        out_rel = [from_real(m) for m in s_.rel._messages]
+        pre, _ = abs_timed(a1)
+    elif inp.get("state"):
         # through the Sequence wrapper, from one of its freshness states
         s_ = P.seq_in_state(G.abs_to_rel(a), inp["state"])
         try:
@@ -92,15 +154,15 @@ def o_qnl(inp):
     if wf_violations(tout):
         # the observed events travel with the failure: known finding D39 (a non-positive allowed value) PREDICTS them
         return [("no-overlap", U2.Detail(f"output notes not well-formed: {wf_violations(tout)[:3]}", out=[m for _, m in tout], bad=wf_violations(tout)))]
-    if inp.get("state"):
+    if inp.get("state") or relist:
         # (judged after the well-formedness of the absolute view, audit round 4: an ill-formed result is reported as such, with its events)
         if U.content_abs(out) != U.content_rel(out_rel):
-            return [("views", f"after quantise_note_lengths from state '{inp['state']}' the relative view does not show what the absolute view shows")]
+            return [("views", f"after quantise_note_lengths from state '{inp.get('state')}' the relative view does not show what the absolute view shows")]
         if not all_int_times(out) or not all_int_times(out_rel):
             return [("int", "non-integer tick after quantise_note_lengths")]
     nin = notes_of(tin)
     nout = notes_of(tout)
-    if inp.get("state"):
+    if inp.get("state") or relist:
         # the wrapper state was built from a relative list: its cap message was created by the conversion (its channel is inferred, there is
         # none when another message sits on the last tick) — it is not an event; what must be unchanged is every non-note event and the duration
         last = max([m[TIME] for m in a if m[TY] != INTERNAL] + [0])
@@ -155,6 +217,32 @@ D39_EXAMPLE2 = {"abs": [G.pm(ON, 0, 0, note=60, vel=64), G.pm(OFF, 0, 5, note=60
                 "values": [-1, 24], "dne": True}
 
 
+def gen_relist(rng, a, dne):
+    """a second call with the caller's list edited in place in between (seeded change C06_agent8): a first list of positive values, 1-2 edits
+    (mostly removing / replacing a value the first pass actually GAVE to some note, so that the second pass has something to do), and whether
+    the second call gets the same list object or an equal copy.  Returns the `relist` record and whether the second pass must change a note."""
+    first = list(rng.choice(VALUE_LISTS))
+    if rng.random() < 0.4:
+        first = [rng.choice([1, 2, 3, 4, 6, 8, 9, 12, 16, 18, 24, 36, 48]) for _ in range(rng.randint(2, 6))]
+    pre, _ = abs_timed(sorted(a, key=_canon_key))
+    used = sorted({x for (_, _, _, x, _) in qnl_text_prediction(pre, first, dne)})
+    edits = []
+    cur = list(first)
+    for _ in range(rng.choice([1, 1, 2])):
+        kind = rng.choice(["remove", "remove", "replace", "replace", "append", "none"])
+        pool = [x for x in used if x in cur] or cur
+        if kind == "remove" and len(set(cur)) >= 2:
+            edits.append(["remove", rng.choice(pool)])
+        elif kind == "replace":
+            edits.append(["replace", cur.index(rng.choice(pool)), rng.choice([1, 2, 3, 4, 6, 8, 9, 12, 16, 18, 24, 36, 48, 96])])
+        elif kind == "append":
+            edits.append(["append", rng.choice([1, 2, 3, 5, 6, 12, 24, 48])])
+        apply_list_edits(cur, edits[-1:])
+    a1 = after_first_pass(pre, a, first, dne)
+    busy = any(off - on not in cur for (_, _, on, off, _) in notes_of(abs_timed(a1)[0]))
+    return {"first": first, "edits": edits, "second": rng.choice(["same-object", "same-object", "equal-copy"])}, busy
+
+
 def setup(ctx):
     ctx.oracle("qnl", o_qnl)
 
@@ -206,6 +294,13 @@ def generate(ctx):
         if i % 3 == 0:
             ctx.count("wrapper-states")
             ctx.check("qnl", {"abs": a, "values": values, "dne": dne, "state": rng.choice(P.SEQ_STATES)})
+        if i % 2 == 0:
+            # the same Sequence quantised twice, the caller's list edited in place in between (seeded change C06_agent8)
+            relist, busy = gen_relist(rng, a, dne)
+            ctx.count("relist:%s" % relist["second"])
+            ctx.count("relist:edits:" + ("+".join(e[0] for e in relist["edits"]) or "none"))
+            ctx.count("relist:second-pass-" + ("must-change-a-note" if busy else "is-a-no-op"))
+            ctx.check("qnl", {"abs": a, "values": relist["first"], "dne": dne, "state": rng.choice(P.SEQ_STATES), "relist": relist})
         if any(x < 0 for x in values):
             # a negative allowed value can put a note-off on tick -1, which the line protocol of the Lean driver cannot tell from None (the
             # sentinel -1 = None of harness/protocol.py): such lists are judged by the oracle (D39) and left out of the correspondence; lists
